@@ -2,31 +2,24 @@ import Arc.Model.C22
 import Arc.Generated.C22
 import Arc.Proofs.C22.Files
 import Arc.Proofs.C22.RestoreParents
+import Arc.Model.C22.PreFix
 /-!
 # C22 — cluster state machine: replay determinism and snapshot fidelity
 
-Property (full statement, kept for reference): for any sequence of committed cluster commands,
-every node that applies it — from an empty state or from a snapshot taken after any prefix — ends in
-the same state, and restoring a snapshot reproduces exactly the state it was taken from; batched
-file operations take effect all-or-nothing; lookup indexes always agree with the primary records.
+Property: for any sequence of committed cluster commands, every node that applies it — from an
+empty state or from a snapshot taken after any prefix — ends in the same state, and restoring a
+snapshot reproduces exactly the state it was taken from; batched file operations take effect
+all-or-nothing; lookup indexes always agree with the primary records.
 
-The real FSM violates three of these clauses on two input classes (confirmed on the real code by
-the harness, see the `_witness` theorems):
-
-* **empty database through UpdateFile** — `applyUpdateFileStruct` does not index a file whose
-  `database` is `""` while `applyRegisterFileStruct` and `Restore` do: the index disagrees with the
-  primary map, `restore (snapshot s) ≠ s`, and a node replaying from that snapshot diverges.
-* **token renamed to an invalid name** — `applyUpdateToken` accepts any new name (empty, > 256 bytes)
-  while `Restore` re-validates with `validateTokenEntry` and quarantines the token (and with it its
-  memberships): `restore (snapshot s) ≠ s` and replay from the snapshot diverges.
-
-  -- theorem C22_files_index_full  : ∀ evs, FileInv (runEv State.empty evs).fs                      -- FALSE
-  -- theorem C22_restore_full      : ∀ evs, restore (snapshot (runEv State.empty evs)) = runEv State.empty evs   -- FALSE
-  -- theorem C22_replay_full       : ∀ pre suf, runEv (restore (snapshot (runEv State.empty pre))) suf
-  --                                             = runEv State.empty (pre ++ suf)                    -- FALSE
-
-Each is proved as `_partial` under the decidable carve-outs `fileSafe` (no Update with an empty
-database, single or batched) and `tokenSafe` (no rename to a name `validateTokenEntry` rejects).
+Stated here about the CURRENT FSM (after fixes 464463f "UpdateFile indexes an empty database" and
+305f0ae "UpdateToken validates a changed name"). Full strength, every history (any commands at any
+log indexes, restores anywhere): determinism, batch atomicity, `filesByDB` agreement
+(`C22_files_index`), snapshot fidelity and replay-from-any-prefix for the manifest and node parts
+(`C22_restore_manifest`, `C22_replay_manifest`), completeness of the RBAC traversal indexes, and —
+for histories with strictly increasing log indexes, which is what Raft delivers — agreement of the
+token/organization name indexes and snapshot fidelity of the token part (see the last section).
+The two defect classes found before the fixes survive as `C22_prefix_*_witness` statements about the
+explicitly named pre-fix functions (`Arc.C22.PreFix`).
 -/
 namespace Arc.C22
 open SMap
@@ -101,11 +94,14 @@ def expectedValidators : List (String × List String) := [
   ("Snapshot", []), ("Persist", [])]
 
 /-- **C22_validators_tied.** Which validator each apply function (and `Restore`) calls in the current
-source is what the model pairs them with — in particular `applyUpdateToken` validates only the
-permission string (the source of the token-rename finding); a repair changes this table and
-re-opens the proof. The length caps are the model's literals. -/
+source is what the model pairs them with; `applyUpdateToken` additionally applies the inline name rule
+of `validateTokenEntry` to a changed name and `applyUpdateFileStruct` indexes every database, the empty
+one included (the two fixes; reverting either flips a regenerated fact). The length caps are the
+model's literals. -/
 theorem C22_validators_tied :
     Arc.Generated.C22.validators = expectedValidators ∧
+    Arc.Generated.C22.updateTokenValidatesName = true ∧
+    Arc.Generated.C22.updateFileIndexesEveryDatabase = true ∧
     Arc.Generated.C22.maxManifestPathLen = 4096 ∧ Arc.Generated.C22.maxTokenHashLen = 512 ∧
     Arc.Generated.C22.maxTokenPrefixLen = 256 ∧ Arc.Generated.C22.rbacNameMaxLen = 256 ∧
     Arc.Generated.C22.rbacPatternMaxLen = 256 ∧ Arc.Generated.C22.rbacDescriptionMaxLen = 1024 := by
@@ -156,83 +152,41 @@ example :
     apply State.empty 1 (.batch [.register (fileA "a/f1" "db"), .update (fileA "s3://x" "db")])
       = (State.empty, .invalid) := by decide
 
-/-! ## the by-database file index -/
+/-! ## the by-database file index, snapshot fidelity and replay for manifest + nodes -/
 
-/-- **C22_files_index_witness.** One `UpdateFile` with an empty database: the file is in `files` but
-`filesByDB[""]` does not list it (real FSM: monitor `index:filesByDB-empty-db`) … -/
-theorem C22_files_index_witness :
-    let s := runEv State.empty [.cmd 1 (.updateFile (fileA "a/f1" ""))]
-    (s.fs.files.get? "a/f1").isSome = true ∧ get2? s.fs.filesByDB "" "a/f1" = none ∧
-    ¬ FileInv s.fs := by
-  refine ⟨by decide, by decide, ?_⟩
-  intro h
-  have := h.agree "" "a/f1"
-  revert this
-  decide
-
-/-- … whereas `RegisterFile` of the same entry does index it: the index is history-dependent. -/
-theorem C22_files_index_witness_register :
-    get2? (runEv State.empty [.cmd 1 (.registerFile (fileA "a/f1" ""))]).fs.filesByDB "" "a/f1" = some () := by
-  decide
-
-def fileSafeRun : List Ev → Bool
-  | [] => true
-  | .cmd _ c :: es => fileSafe c && fileSafeRun es
-  | .restore :: es => fileSafeRun es
-
-theorem fileInv_run (s : State) (evs : List Ev) (h : FileInv s.fs) (hs : fileSafeRun evs = true) :
-    FileInv (runEv s evs).fs := by
+theorem fileInv_run (s : State) (evs : List Ev) (h : FileInv s.fs) : FileInv (runEv s evs).fs := by
   induction evs generalizing s with
   | nil => exact h
   | cons e es ih =>
     cases e with
     | cmd i c =>
-      simp only [fileSafeRun, Bool.and_eq_true] at hs
       simp only [runEv, stepEv]
-      apply ih _ _ hs.2
-      rw [apply_fs]; exact fileInv_step h i c hs.1
+      apply ih
+      rw [apply_fs]; exact fileInv_step h i c
     | restore =>
-      simp only [fileSafeRun] at hs
       simp only [runEv, stepEv]
-      apply ih _ _ hs
+      apply ih
       show FileInv (restoreFs s.fs.files)
       rw [restoreFs_id h]; exact h
 
-/-- **C22_files_index_partial.** For every history without an Update (single or batched) that
-carries an empty database — any commands otherwise, valid or not, any log indexes, restores
+/-- **C22_files_index.** For EVERY history — any commands, valid or not, any log indexes, restores
 anywhere — `filesByDB` agrees exactly with `files`: `filesByDB[db]` lists `p` iff `files[p]` exists
-with that database; no empty inner set is left behind; all maps are in canonical form; every key is
-its entry's path and passes `ValidateManifestPath`. -/
-theorem C22_files_index_partial (evs : List Ev) (hs : fileSafeRun evs = true) :
-    FileInv (runEv State.empty evs).fs :=
-  fileInv_run State.empty evs fileInv_empty hs
+with that database (the empty database included); no empty inner set is left behind; all maps are in
+canonical form; every key is its entry's path and passes `ValidateManifestPath`. -/
+theorem C22_files_index (evs : List Ev) : FileInv (runEv State.empty evs).fs :=
+  fileInv_run State.empty evs fileInv_empty
 
-example : fileSafeRun [.cmd 1 (.registerFile (fileA "a/f1" "")), .cmd 2 (.updateFile (fileA "a/f1" "db2")),
-    .restore, .cmd 3 (.batch [.update (fileA "a/f1" "db1"), .delete "a/f1", .register (fileA "../x" "db")]),
-    .cmd 4 (.deleteFile "")] = true := by decide
+example :
+    let s := runEv State.empty [.cmd 1 (.updateFile (fileA "a/f1" "")), .cmd 2 (.registerFile (fileA "a/f2" "")),
+      .restore, .cmd 3 (.batch [.update (fileA "a/f1" "db1"), .delete "a/f2", .register (fileA "../x" "db")])]
+    get2? s.fs.filesByDB "" "a/f1" = some () ∧ get2? s.fs.filesByDB "" "a/f2" = some () := by decide
 
-/-! ## snapshot fidelity and replay from a snapshot: manifest and node parts -/
-
-/-- **C22_restore_files_witness.** After that same single `UpdateFile`, restoring the snapshot does
-NOT reproduce the state: `Restore` rebuilds `filesByDB[""]` (monitor `restore:filesByDB-empty-db`). -/
-theorem C22_restore_files_witness :
-    let s := runEv State.empty [.cmd 1 (.updateFile (fileA "a/f1" ""))]
-    restore (snapshot s) ≠ s ∧ (restore (snapshot s)).fs.files = s.fs.files := by decide
-
-/-- **C22_replay_files_witness.** … and a node that installs that snapshot and applies the next
-committed command ends in a different state than a node that replayed the whole log
-(monitor `replay-diverges:filesByDB-empty-db`). -/
-theorem C22_replay_files_witness :
-    let pre : List Ev := [.cmd 1 (.updateFile (fileA "a/f1" ""))]
-    let suf : List Ev := [.cmd 2 (.registerFile (fileA "a/f2" ""))]
-    runEv (restore (snapshot (runEv State.empty pre))) suf ≠ runEv State.empty (pre ++ suf) := by decide
-
-/-- **C22_restore_manifest_partial.** Inside the carve-out the node part and the manifest part
-(primary map AND index) of every reachable state survive snapshot + restore unchanged. -/
-theorem C22_restore_manifest_partial (evs : List Ev) (hs : fileSafeRun evs = true) :
+/-- **C22_restore_manifest.** The node part and the manifest part (primary map AND index) of every
+reachable state survive snapshot + restore unchanged. -/
+theorem C22_restore_manifest (evs : List Ev) :
     (restore (snapshot (runEv State.empty evs))).fs = (runEv State.empty evs).fs ∧
     (restore (snapshot (runEv State.empty evs))).cl = (runEv State.empty evs).cl :=
-  ⟨restoreFs_id (C22_files_index_partial evs hs), rfl⟩
+  ⟨restoreFs_id (C22_files_index evs), rfl⟩
 
 /-- the manifest part of a history evolves on its own (commands touch one part of the state) -/
 def runFs (f : FileSt) : List Ev → FileSt
@@ -248,118 +202,61 @@ theorem runEv_fs (s : State) (evs : List Ev) : (runEv s evs).fs = runFs s.fs evs
     | cmd i c => simp only [runEv, stepEv, runFs]; rw [ih, apply_fs]
     | restore => simp only [runEv, stepEv, runFs]; rw [ih]; rfl
 
-/-- **C22_replay_manifest_partial.** Replay from a snapshot after ANY prefix equals replay from
-empty, for the file manifest (primary map and `filesByDB`) and the node/role part: if the prefix stays
-inside the carve-out, a node that installs the snapshot taken after it and then applies ANY suffix
-(restores included) ends with the same manifest and the same nodes/primary writer/compactor as a
-node that applied prefix ++ suffix from the empty state. -/
-theorem C22_replay_manifest_partial (pre suf : List Ev) (hs : fileSafeRun pre = true) :
+theorem runEv_cl_congr (suf : List Ev) (a b : State) (hab : a.cl = b.cl) :
+    (runEv a suf).cl = (runEv b suf).cl := by
+  induction suf generalizing a b with
+  | nil => exact hab
+  | cons e es ih =>
+    cases e with
+    | cmd i c =>
+      simp only [runEv, stepEv]
+      apply ih
+      cases c <;> simp [apply, liftN, liftF, liftA, hab]
+    | restore =>
+      simp only [runEv, stepEv]
+      apply ih
+      exact hab
+
+/-- **C22_replay_manifest.** Replay from a snapshot taken after ANY prefix equals replay from
+empty, for the file manifest (primary map and `filesByDB`) and the node/role part: a node that
+installs the snapshot and then applies any suffix (restores included) ends with the same manifest
+and the same nodes / primary writer / compactor as a node that applied prefix ++ suffix from the
+empty state. No carve-out. -/
+theorem C22_replay_manifest (pre suf : List Ev) :
     (runEv (restore (snapshot (runEv State.empty pre))) suf).fs = (runEv State.empty (pre ++ suf)).fs ∧
     (runEv (restore (snapshot (runEv State.empty pre))) suf).cl = (runEv State.empty (pre ++ suf)).cl := by
-  have h := C22_restore_manifest_partial pre hs
+  have h := C22_restore_manifest pre
   refine ⟨?_, ?_⟩
   · rw [runEv_append, runEv_fs, runEv_fs (runEv State.empty pre), h.1]
-  · rw [runEv_append]
-    generalize runEv State.empty pre = s
-    -- the node part never reads the other parts and restore leaves it untouched
-    have key : ∀ (a b : State), a.cl = b.cl → (runEv a suf).cl = (runEv b suf).cl := by
-      intro a b hab
-      induction suf generalizing a b with
-      | nil => exact hab
-      | cons e es ih =>
-        cases e with
-        | cmd i c =>
-          simp only [runEv, stepEv]
-          apply ih
-          cases c <;> simp [apply, liftN, liftF, liftA, hab]
-        | restore =>
-          simp only [runEv, stepEv]
-          apply ih
-          exact hab
-    exact key _ _ rfl
+  · rw [runEv_append]; exact runEv_cl_congr suf _ _ rfl
 
-example : fileSafeRun [.cmd 1 (.registerFile (fileA "a/f1" "")), .cmd 2 (.batch [.update (fileA "a/f1" "db1")])] = true := by
-  decide
-
-/-! ## what the proposed repair buys for the manifest (NOT tied to the source)
-
-The patch makes `applyUpdateFileStruct` index unconditionally, i.e. behave exactly like
-`applyRegisterFileStruct`. For that transition function the carve-out disappears. -/
-
-def batchOpR (s : FileSt) (i : Nat) : BatchOp → FileSt
-  | .update f => (applyRegister s i f).1
-  | op => (applyBatchOp s i op).1
-
-def fsStepR (s : FileSt) (i : Nat) : Cmd → FileSt
-  | .updateFile f => (applyRegister s i f).1
-  | .batch ops => if prevalidate ops = .ok then ops.foldl (fun st op => batchOpR st i op) s else s
-  | c => fsStep s i c
-
-def runFsR (f : FileSt) : List Ev → FileSt
-  | [] => f
-  | .cmd i c :: es => runFsR (fsStepR f i c) es
-  | .restore :: es => runFsR (restoreFs f.files) es
-
-theorem fileInv_foldR (ops : List BatchOp) (i : Nat) (g : FileSt) (hg : FileInv g) :
-    FileInv (ops.foldl (fun st op => batchOpR st i op) g) := by
-  induction ops generalizing g with
-  | nil => exact hg
-  | cons op rest ih2 =>
-    simp only [List.foldl_cons]
-    apply ih2
-    cases op with
-    | update f' => exact fileInv_register hg i f'
-    | register f' => exact fileInv_register hg i f'
-    | delete p => exact fileInv_delete hg p
-    | malformed => exact hg
-    | unsupported => exact hg
-
-/-- **C22_repaired_files_index_full.** With the patched Update, `filesByDB` agrees with `files` and
-snapshot+restore is the identity on the manifest for ALL histories. -/
-theorem C22_repaired_files_index_full (evs : List Ev) :
-    FileInv (runFsR {} evs) ∧ restoreFs (runFsR {} evs).files = runFsR {} evs := by
-  have key : ∀ (f : FileSt), FileInv f → FileInv (runFsR f evs) := by
-    induction evs with
-    | nil => intro f h; exact h
-    | cons e es ih =>
-      intro f h
-      cases e with
-      | restore => simp only [runFsR]; apply ih; rw [restoreFs_id h]; exact h
-      | cmd i c =>
-        simp only [runFsR]
-        apply ih
-        cases c <;> try exact h
-        · exact fileInv_register h i _
-        · exact fileInv_delete h _
-        · show FileInv (if prevalidate _ = .ok then _ else f)
-          split
-          · exact fileInv_foldR _ i f h
-          · exact h
-        · exact fileInv_register h i _
-  have h := key {} fileInv_empty
-  exact ⟨h, restoreFs_id h⟩
-
-/-! ## tokens: restore-time validation is stricter than update-time validation -/
+/-! ## the pre-fix counterexamples (statements about `Arc.C22.PreFix`, not about the current code) -/
 
 def tokA : TokenEntry :=
   { id := 0, name := "tA", desc := "", perms := "read", hash := "h", pfx := "p", created := 5,
     expires := 0, enabled := true, lsn := 0 }
 
-/-- **C22_restore_token_witness.** `UpdateToken` may set the name to `""` (no validation of a
-changed name); `Restore` re-validates with `validateTokenEntry` and drops the token: the snapshot
-does not reproduce the state (monitor `restore:token-name-unvalidated`). -/
-theorem C22_restore_token_witness :
-    let s := runEv State.empty [.cmd 1 (.createToken tokA), .cmd 2 (.updateToken 1 "" "" "" 0 ["name"])]
-    (apply (runEv State.empty [.cmd 1 (.createToken tokA)]) 2 (.updateToken 1 "" "" "" 0 ["name"])).2 = .ok ∧
+/-- pre-464463f: one `UpdateFile` with an empty database left the file out of `filesByDB[""]`;
+`Restore` re-indexed it, so the snapshot did not reproduce the state and a replay from it diverged -/
+theorem C22_prefix_files_witness :
+    let s := PreFix.runEv State.empty [.cmd 1 (.updateFile (fileA "a/f1" ""))]
+    (s.fs.files.get? "a/f1").isSome = true ∧ get2? s.fs.filesByDB "" "a/f1" = none ∧
+    restore (snapshot s) ≠ s ∧
+    PreFix.runEv (restore (snapshot s)) [.cmd 2 (.registerFile (fileA "a/f2" ""))] ≠
+      PreFix.runEv s [.cmd 2 (.registerFile (fileA "a/f2" ""))] := by decide
+
+/-- pre-305f0ae: `UpdateToken` could set the name to `""`; `Restore` then quarantined the token -/
+theorem C22_prefix_token_witness :
+    let s := PreFix.runEv State.empty [.cmd 1 (.createToken tokA), .cmd 2 (.updateToken 1 "" "" "" 0 ["name"])]
     s.au.tokens.length = 1 ∧ (restore (snapshot s)).au.tokens = [] ∧ restore (snapshot s) ≠ s := by decide
 
-/-- **C22_replay_token_witness.** A node that installs that snapshot accepts a later
-`CreateToken` … and ends in a different state than a node that replayed the log from the start
-(monitor `replay-diverges:token-name-unvalidated`). -/
-theorem C22_replay_token_witness :
-    let pre : List Ev := [.cmd 1 (.createToken tokA), .cmd 2 (.updateToken 1 "" "" "" 0 ["name"])]
-    let suf : List Ev := [.cmd 3 (.updateToken 1 "tB" "" "" 0 ["name"])]
-    runEv (restore (snapshot (runEv State.empty pre))) suf ≠ runEv State.empty (pre ++ suf) := by decide
+/-- the same two histories on the CURRENT functions: indexed / refused, and restore is the identity -/
+theorem C22_prefix_histories_now_fine :
+    let s1 := runEv State.empty [.cmd 1 (.updateFile (fileA "a/f1" ""))]
+    let s2 := runEv State.empty [.cmd 1 (.createToken tokA), .cmd 2 (.updateToken 1 "" "" "" 0 ["name"])]
+    get2? s1.fs.filesByDB "" "a/f1" = some () ∧ restore (snapshot s1) = s1 ∧
+    (apply (runEv State.empty [.cmd 1 (.createToken tokA)]) 2 (.updateToken 1 "" "" "" 0 ["name"])).2 = .invalid ∧
+    restore (snapshot s2) = s2 := by decide
 
 /-! ## traversal indexes of the RBAC hierarchy are complete (full strength) -/
 
